@@ -53,6 +53,35 @@ OTHER_SOURCES = (
 ENV_OK = ("std::env::args", "std::env::args_os")
 
 
+def key_eq_hash_rule(ctx, rule):
+    F, rep = ctx.F, ctx.rep
+    eq = F.fn("<dyn exec::val::Key as std::cmp::PartialEq>::eq")
+    hs = F.fn("<dyn exec::val::Key as std::hash::Hash>::hash")
+    for name, fn, trait, want_keys in (("eq", eq, "std::cmp::PartialEq::eq", 2), ("hash", hs, "std::hash::Hash::hash", 1)):
+        if fn is None:
+            rep.fail(rule, "anchor::" + name, "impl %s for dyn Key not found" % name)
+            continue
+        rep.analysed(fn)
+        keys = [bi for bi, t in fn.calls() if callee_def(t) == "exec::val::Key::to_key"]
+        core = [(bi, t) for bi, t in fn.calls() if callee_def(t) == trait and "exec::val::DictKeyRef" in (t["callee"].get("inst") or "")]
+        others = [callee_def(t) for bi, t in fn.calls() if bi not in keys and bi not in [b for b, _ in core]]
+        switches = [bi for bi in range(len(fn.blocks)) if fn.term(bi)["k"] == "switch" and not fn.blocks[bi]["cleanup"]]
+        ok, why = True, ""
+        if len(keys) != want_keys or len(core) != 1:
+            ok, why = False, "expected %d to_key() call(s) and one DictKeyRef %s, found %d / %d" % (want_keys, name, len(keys), len(core))
+        elif core[0][1]["dest"]["l"] != 0 and name == "eq":
+            ok, why = False, "the DictKeyRef comparison is not returned unchanged"
+        elif switches or others:
+            ok, why = False, "%s for dyn Key does more than compare / hash the two to_key() results (%s): it is no longer guaranteed that equal keys hash alike" % (name, others or "it branches")
+        elif common.path_to_return_avoiding(fn, [core[0][0]], through_errors=True):
+            ok, why = False, "a path avoids the DictKeyRef %s" % name
+        rep.ob(rule, "dyn-key::%s-is-DictKeyRef-%s-of-to_key" % (name, name), ok, why, fn.loc(), how="to_key() %s to_key()" % ("==" if name == "eq" else "hashed"))
+    for tr in ("std::cmp::PartialEq", "std::hash::Hash"):
+        imps = [im for im in F.impls if im.get("trait") == tr and "DictKeyRef" in im.get("trait_ref", "") and im.get("trait_ref", "").startswith("<exec::val::DictKeyRef")]
+        ok = len(imps) == 1 and bool(imps[0].get("derived"))
+        rep.ob(rule, "DictKeyRef::%s-derived" % tr.rsplit("::", 1)[-1], ok, "" if ok else "%s for DictKeyRef is not the derived impl (found %d): equality and hash may disagree" % (tr, len(imps)), None, how="#[derive]")
+
+
 def has_hash_iter(ty):
     for t in ty.walk():
         if t.kind() == "adt" and t.adt().startswith(HASH_ITER_PREFIXES) and not t.adt().endswith(("::HashMap", "::HashSet", "RandomState", "DefaultHasher", "Entry", "OccupiedEntry", "VacantEntry")):
@@ -104,6 +133,11 @@ def c10(ctx):
              "same run as any other delivery of the same bytes")
     from . import c08 as _c08
     common.rerun_under(ctx, _c08.c08, "C10.R5", keep=lambda r: r in ("C08.R1", "C08.R2", "C08.R7"))
+    rep.rule("C10.R6", "dictionary lookups do not depend on the hasher's seed: for the borrowed key type `dyn Key`, equality and hash are both "
+             "functions of to_key() alone -- eq is exactly the (derived) DictKeyRef equality of the two to_key() results and hash exactly the "
+             "(derived) DictKeyRef hash of to_key(), each returned unchanged on every path; an equality coarser than the hash finds an entry "
+             "only when two different keys happen to land in the same bucket, which varies from run to run")
+    key_eq_hash_rule(ctx, "C10.R6")
     rep.rule("C10.R3", "sorting: unstable sorts are accepted only on whole items (equal means identical); keyed unstable sorts need a "
              "reviewed entry; the lint report is sorted with the stable slice::sort_by_key")
     rep.trust("std and the dependencies are themselves deterministic; hash containers are order-insensitive when used by key only")
